@@ -1290,3 +1290,5 @@ B('bat-memo-of-last-batcher-copied', ['C15'], ['C15-R3'],
             batcher = batchers[loop]
           except KeyError:
             batcher = batchers[loop] = AsyncBackgroundBatcher("""))
+B('bridge-sentinel-is-none', ['C16'], ['C16-TA2'],
+  (A, "_DONE = object()\n", "_DONE = None\n"))
